@@ -62,6 +62,103 @@ def run(db, rep, tier):
     rep.assumptions += ["additions of 32-bit lengths do not overflow", "little-endian host arm of the byte-order macros"]
 
 
+def r8_quoted(db, rep, f):
+    """IP::matches_response accepts an ICMP error as the answer when it quotes our own header.  The only accepting
+    exits of the function are (i) the inner match / `true` under the address condition (R2) and (ii) `true` under
+    EQUALITY of memcmp(our header, quoted header) - a test `memcmp(...)` without `== 0` accepts every packet that
+    DIFFERS from ours - and the quoted header is looked for where RFC 792 puts it: behind the IP header and the 8-byte
+    ICMP header."""
+    rep.rule("R8-quoted-header", "IP: an ICMP error is accepted without the address test only when the header it quotes EQUALS ours "
+                                 "(memcmp == 0), and the quoted header is read sizeof(ip_header) + sizeof(icmp_header) bytes into the packet", 2)
+    from vlib import cond as _cond
+    g = cfg.FnCFG(f)
+    hdr = (db.records.get("Tins::IP::ip_header") or {}).get("size")
+    icmp = (db.records.get("Tins::ICMP::icmp_header") or {}).get("size")
+    if not hdr or not icmp:
+        rep.analysis_broken("sizes of IP::ip_header / ICMP::icmp_header unknown")
+        return
+    pv = f["params"][0]["var"]
+    cmps = [x for x in facts.fn_nodes(f) if x["k"] == "CallExpr" and x.get("cname") in ("memcmp", "equal") and
+            any(y["k"] == "MemberExpr" and y.get("member") == "header_" for y in facts.walk(x))]
+    key = "IP::matches_response:quoted-header-equal"
+    # (a) accepting returns outside the address condition
+    bad = None
+    n_acc = 0
+    for r_ in facts.fn_nodes(f):
+        if r_["k"] != "ReturnStmt" or not r_.get("c") or facts.cval(r_["c"][0]) == 0:
+            continue
+        gf = _cond.guards_facts(g, g.pos(r_))
+        txt = " ".join(facts.expr_str(facts.inline_locals(f, c_)) for c_, pol_, _ in g.guards_at(g.pos(r_)) if pol_)
+        # plus the conditions of the ifs the return is nested in (a disjunction has no single dominating edge)
+        idx_, par_ = facts.index_fn(f)
+        cur = r_
+        while cur is not None:
+            p_ = par_.get(cur["id"])
+            if p_ is not None and p_["k"] == "IfStmt":
+                real_ = [x for x in p_["c"] if x is not None]
+                if len(real_) >= 2 and any(x is cur for x in facts.walk(real_[1])):
+                    txt += " " + facts.expr_str(facts.inline_locals(f, real_[0]))
+            cur = p_
+        if "saddr" in txt or "daddr" in txt:
+            continue            # under the address condition: R2's business
+        n_acc += 1
+        eq = False
+        for op, l, rr in gf:
+            l0 = facts.strip_all(l)
+            if l0["k"] == "CallExpr" and l0.get("cname") == "memcmp" and l0 in cmps or any(l0 is c_ for c_ in cmps):
+                if (op == "==" and rr is not None and facts.cval(rr) == 0) or op == "false":
+                    eq = True
+                elif op in ("true", "!="):
+                    bad = (r_, "the packet is accepted when memcmp(our header, quoted header) is NON-zero, i.e. whenever the quoted "
+                               "bytes DIFFER from our header: any ICMP error from any host about any datagram is taken for the response")
+            if l0["k"] == "CallExpr" and l0.get("cname") == "equal" and op == "true":
+                eq = True
+        if not eq and bad is None:
+            bad = (r_, "the packet is accepted on a path that tests neither the addresses nor equality with our quoted header")
+    if bad:
+        rep.violation("R8-quoted-header", key, facts.loc(f, bad[0]), bad[1])
+    else:
+        rep.ok("R8-quoted-header", key, facts.loc(f), "%d accepting exit(s) outside the address test, each under memcmp(...) == 0" % n_acc)
+    # (b) where the quoted header is looked for
+    key = "IP::matches_response:quoted-header-offset"
+    if not cmps:
+        rep.ok("R8-quoted-header", key, facts.loc(f), "no comparison with a quoted header (ICMP errors are matched by address only)")
+        return
+    c_ = cmps[0]
+    arg = None
+    for a in c_["c"][1:3]:
+        if not any(y["k"] == "MemberExpr" and y.get("member") == "header_" for y in facts.walk(a)):
+            arg = facts.strip_all(a)
+    off = None
+    if arg is not None and arg["k"] == "DeclRefExpr" and arg.get("var"):
+        v = arg["var"]
+        total = None
+        for x in facts.fn_nodes(f):
+            if x["k"] == "VarDecl" and x.get("var") == v and x.get("c"):
+                i0 = facts.strip_all(x["c"][0])
+                if i0["k"] == "BinaryOperator" and i0.get("op") == "+" and facts.strip_all(i0["c"][0]).get("var") == pv and facts.cval(i0["c"][1]) is not None:
+                    total = int(facts.cval(i0["c"][1]))
+        if total is not None:
+            ok_ = True
+            for x in facts.fn_nodes(f):
+                if x["k"] == "CompoundAssignOperator" and x.get("op") == "+=" and facts.strip_all(x["c"][0]).get("var") == v:
+                    k_ = facts.cval(x["c"][1])
+                    if k_ is None or not g.before_on_all_paths(g.pos(x), g.pos(c_)):
+                        ok_ = False
+                    else:
+                        total += int(k_)
+            off = total if ok_ else None
+    if off is None:
+        rep.undecided("R8-quoted-header", key, facts.loc(f, c_), "position of the quoted header is not a constant offset from the buffer start")
+    elif off == hdr + icmp:
+        rep.ok("R8-quoted-header", key, facts.loc(f, c_), "quoted header read at offset %d = sizeof(ip_header) + sizeof(icmp_header)" % off)
+    else:
+        rep.violation("R8-quoted-header", key, facts.loc(f, c_),
+                      "the quoted header is compared at offset %d of the packet; an ICMP error carries it at offset %d (IP header %d + ICMP "
+                      "header %d: type, code, checksum, 4 unused bytes): the comparison is made against the wrong bytes, so it "
+                      "can never recognise the datagram it is about" % (off, hdr + icmp, hdr, icmp))
+
+
 def r2(db, rep):
     r3(db, rep)
     rep.rule("R5-mirror-bits", "TCP / UDP / 802.1Q: the predicate guarding the inner match is true for the mirrored header (our field bits equal "
@@ -80,6 +177,7 @@ def r2(db, rep):
         rep.analysis_broken("IP::matches_response vanished")
         return
     f = fs[0]
+    r8_quoted(db, rep, f)
     cand = None
     for n in facts.fn_nodes(f):
         if n["k"] == "IfStmt":
@@ -315,34 +413,47 @@ def r5(db, rep):
             rep.analysis_broken("%s: member header_ not found" % K)
             continue
         H = hf["off"]
-        # the guarding if: top-level IfStmt whose branch contains the inner match (or `return true`)
-        top = f["body"].get("c", [])
-        guard = None
-        for i, st in enumerate(top):
-            if st["k"] == "IfStmt":
-                real = [x for x in st["c"] if x is not None]
-                inner = any(x["k"] == "CXXMemberCallExpr" and x.get("cname") == "matches_response" for x in facts.walk(real[1]))
-                if inner:
-                    guard = (i, st, real[0])
-        if guard is None:
-            rep.analysis_broken("%s::matches_response: the condition guarding the inner match was not found" % short)
-            continue
-        gi, gst, gcond = guard
+        # the predicate itself: the whole function is executed symbolically (every path; 4096-byte buffer) for a layer whose
+        # inner layer accepts, so its result is exactly "this header accepts that header" - independent of whether the
+        # test is an if around the inner match, an early return of false, a ?: ...
+        gst = f["body"]
         try:
-            m = bp.Machine(db)
-            this = m.new_region("this", "m")
-            P = m.new_region("P", "p")
-            thisloc = bp.Loc(this, 0, {"k": "rec", "name": K, "size": rec["size"]})
-            fr = bp.Frame(m, f, thisloc, 0)
+            inner = bp.field_of(db, K, "inner_pdu_")
+            if inner is None:
+                raise bp.Unsupported("member inner_pdu_ not found")
             pt = facts.tyi(f, f["params"][0].get("t"))
-            fr.bind(f["params"][0]["var"], pt, bp.Ptr(bp.Loc(P, 0, (pt or {}).get("to"))))
-            fr.bind(f["params"][1]["var"], facts.tyi(f, f["params"][1].get("t")), bp.BV.const(4096, 32))
-            for st in top[:gi]:
-                try:
-                    fr.stmt(st)
-                except bp._Ret:
-                    raise bp.Unsupported("a statement before the guard returns for a 4096-byte buffer")
-            cbit = fr.truth(fr.rv(gcond))
+            thist = {"k": "rec", "name": K, "size": rec["size"]}
+
+            class AcceptingChild(object):
+                """the inner layer's own matcher is taken to accept (the property speaks of layers WITH a payload)"""
+                def construct(self, fr, n, loc):
+                    return False
+
+                def call(self, fr, n, callee, cname, objinfo, argn):
+                    if cname == "matches_response" and objinfo is not None and objinfo[0] is not None and \
+                            facts.strip(objinfo[0])["k"] != "CXXThisExpr":
+                        return (bp.BV.const(1, 8),)
+                    return None
+
+            def run(setup):
+                m = bp.Machine(db)
+                setup(m)
+                m.hooks = AcceptingChild()
+                this = m.new_region("this", "m")
+                P = m.new_region("P", "p")
+                child = m.new_region("child", "c")
+                m.regions[this][("ptr", inner["off"])] = bp.Ptr(bp.Loc(child, 0, {"k": "rec", "name": "Tins::PDU", "size": 24}))
+                rv_ = m.call(f, bp.Loc(this, 0, thist), [bp.Ptr(bp.Loc(P, 0, (pt or {}).get("to"))), bp.BV.const(4096, 32)])
+                if rv_ is None:
+                    raise bp.Unsupported("a path returns no value")
+                return bp.Frame(m, f, bp.Loc(this, 0, thist), 0).truth(rv_)
+            cbit = 0
+            for pc, res in bp.explore_paths(run):
+                if res == "throw":
+                    continue
+                res = 1 if res is True else (0 if res is False else res)
+                cbit = bp.b_or(cbit, bp.b_and(pc, res))
+            thisloc = bp.Loc("this", 0, thist)
             # footprints of the getters
             pairing = {}        # buffer bit -> this bit
             for a, b in pairs:
